@@ -153,6 +153,36 @@ theorem echo6_mirrors (src dst msg : List Nat) (fl : Nat) (r : List Nat) (h : ec
           rwa [List.drop_drop] at this
         simpa using this
 
+/-- ICMPv6: only echo requests whose first view holds the whole 8-byte echo header are answered, and the reply has the
+request's length and code (nothing is cut off or appended, whatever the split into views) -/
+theorem echo6_only_requests_same_length (src dst msg : List Nat) (fl : Nat) (r : List Nat)
+    (h : echo6Reply src dst msg fl = some r) :
+    8 ≤ msg.length ∧ 8 ≤ fl ∧ r.length = msg.length ∧ r.getD 1 0 = msg.getD 1 0 := by
+  unfold echo6Reply at h
+  simp only at h
+  split at h
+  · simp at h
+  · split at h
+    · simp at h
+    · split at h
+      · simp at h
+      · rename_i h1 h2 h3
+        simp only [Option.some.injEq] at h
+        subst h
+        have hlen : (msg.take fl).length = min fl msg.length := List.length_take
+        have h8 : 8 ≤ msg.length := by omega
+        have hf : 8 ≤ fl := by omega
+        have e1 : (msg.take fl).getD 1 0 = msg.getD 1 0 := by
+          match msg, fl with
+          | a :: b :: t, n + 2 => simp
+          | [], _ => simp at h8
+          | [_], _ => simp at h8
+          | _ :: _ :: _, 0 => omega
+          | _ :: _ :: _, 1 => omega
+        refine ⟨h8, hf, ?_, by simpa using e1⟩
+        simp [be16]
+        omega
+
 /-- non-vacuity / worked instance: ident 0x1234 seq 1 payload "hi" -/
 example : echo4Reply [8, 0, 0, 0, 0x12, 0x34, 0, 1, 104, 105] 10 =
     some [0, 0, 0x85, 0x61, 0x12, 0x34, 0, 1, 104, 105] := by decide
